@@ -148,6 +148,13 @@ func (e *Executor) traverse(rt RequestTask) (err error) {
 		// if we've only loaded locally so far and hit a missing block
 		// initiate remote request and retry the load operation from remote
 		if _, ok := result.Err.(graphsync.RemoteMissingBlockErr); ok && !requestSent {
+			// the request may have been cancelled while we were still loading
+			// locally (its cancel has gone out already): do not send it again
+			select {
+			case <-rt.Ctx.Done():
+				return ipldutil.ContextCancelError{}
+			default:
+			}
 			requestSent = true
 
 			// tell the loader we're online now
